@@ -14,22 +14,31 @@ RULE = ("every history of add_* events up to the depth bound (origin first / in 
 ASSUMPTIONS = ["strict reader mc/rp66.py", "reference model mc/model.py"]
 
 
+# every object kind that owns a set type of its own appears in the alphabet: the order of sets in the file depends on
+# which set types exist and when they were first touched (e.g. WELL-REFERENCE shares the record type of ORIGIN)
+C09_QUICK = hist.QUICK_EVENTS + ['WR', 'EQ', 'CP']
+
+
+def _events(tier):
+    return C09_QUICK if tier == 'quick' else hist.THOROUGH_EVENTS
+
+
 def depth(tier):
     return 4 if tier == 'quick' else 5
 
 
 def bounds(tier):
-    return {'depth': depth(tier), 'events': hist.QUICK_EVENTS if tier == 'quick' else hist.THOROUGH_EVENTS}
+    return {'depth': depth(tier), 'events': _events(tier)}
 
 
 def shards(tier):
-    return [{'first': e} for e in hist.enabled_events([], tier)] + [{'first': None}, {'header': True}]
+    return [{'first': e} for e in hist.enabled_events([], tier, _events(tier))] + [{'first': None}, {'header': True}]
 
 
 def _histories(prefix, d, tier):
     yield prefix
     if len(prefix) < d:
-        for e in hist.enabled_events(prefix, tier):
+        for e in hist.enabled_events(prefix, tier, _events(tier)):
             yield from _histories(prefix + [e], d, tier)
 
 
